@@ -56,10 +56,7 @@ def derived_methods(chk, prog):
     r = ev.eval_fn(t.methods["project"], t.module, t)
     chk.require(r.ret == ("call", ("attr", gfn, "project"), (P("key"), SELF, P("selection")), ()), "DELEG-ROLE", "Trace.project", "gen_fn.project(key, self, selection)", derived=show(r.ret)[:200], expected="self.get_gen_fn().project(key, self, selection)", where=W(t, "project"))
     r = ev.eval_fn(t.methods["get_subtrace"], t.module, t)
-    ok = is_call(r.ret, "reduce") and len(r.ret[2]) == 3 and r.ret[2][1:] == (P("addresses"), SELF)
-    if ok:
-        rr = ev.apply(r.ret[2][0], [P("$tr"), P("$a")], module=t.module)
-        ok = rr == ("call", ("attr", P("$tr"), "get_inner_trace"), (P("$a"),), ())
+    ok = is_t(r.ret, "loop") and r.ret[1] == P("addresses") and r.ret[2] == SELF and r.ret[3] == ("call", ("attr", SELF, "get_inner_trace"), (("elem", P("addresses")),), ())
     chk.require(ok, "SUBTRACE", "Trace.get_subtrace", "left fold of get_inner_trace over the addresses", derived=show(r.ret)[:160], expected="reduce(lambda tr, addr: tr.get_inner_trace(addr), addresses, self)", where=W(t, "get_subtrace"))
     # PrimitiveEditRequest.edit
     pe = prog.cls("PrimitiveEditRequest", "core/generative/concepts.py")
